@@ -83,6 +83,7 @@ class Tracer:
         self.idx = 0
         self.armed = False
         self.fds = {}             # fds returned by the traced os.open -> rel path
+        self.fdpath = {}          # fds of traced file objects -> rel path (for sendfile & co)
         self.real = {}
 
     # -- protocol ------------------------------------------------------------
@@ -160,6 +161,10 @@ class Tracer:
                         T.done(i, errname(e))
                         raise
                     T.done(i, "ok")
+                    try:
+                        T.fdpath[self.fileno()] = self._t_path
+                    except Exception:
+                        pass
                 self._t_closed = False
 
             def write(self, b):
@@ -180,6 +185,10 @@ class Tracer:
                 if self._t_closed or self.closed:
                     return super().close()
                 self._t_closed = True
+                try:
+                    T.fdpath.pop(self.fileno(), None)
+                except Exception:
+                    pass
                 try:
                     i = T.gate("close", True, path=self._t_path)
                 except OSError:
@@ -321,6 +330,31 @@ class Tracer:
             return real_fsync(fd)
 
         os.open, os.write, os.close, os.fsync = os_open, os_write, os_close, os_fsync
+
+        # descriptor-level writers that bypass FileIO.write (shutil's fast copy uses sendfile)
+        def wrapfd(name, fdpos):
+            real = getattr(os, name, None)
+            if real is None:
+                return
+
+            def w(*a, **k):
+                fd = a[fdpos] if len(a) > fdpos else None
+                path = T.fdpath.get(fd) or T.fds.get(fd)
+                if path is None:
+                    return real(*a, **k)
+                i = T.gate(name, True, path=path)
+                try:
+                    r = real(*a, **k)
+                except OSError as e:
+                    T.done(i, errname(e))
+                    raise
+                T.done(i, "ok")
+                return r
+            setattr(os, name, w)
+
+        for name, fdpos in (("sendfile", 0), ("copy_file_range", 1), ("splice", 1), ("pwrite", 0), ("writev", 0),
+                            ("pwritev", 0), ("ftruncate", 0), ("posix_fallocate", 0), ("fchmod", 0), ("fchown", 0)):
+            wrapfd(name, fdpos)
 
 
 def _child_main(entry, root, wfd, plan, rfd, prepare):
